@@ -633,7 +633,9 @@ impl<C: Suite> Model for MExchange<C> {
 }
 
 pub fn models(tier: Tier, seed: u64) -> Vec<Box<dyn DynModel>> {
-    vec![bounded(MGolden::new(seed), 1), bounded(MExchange::<Bls12381G1Impl>::new(tier, seed), 1), bounded(MExchange::<Bls12381G2Impl>::new(tier, seed), 1)]
+    let mut v: Vec<Box<dyn DynModel>> = vec![bounded(MGolden::new(seed), 1), bounded(MExchange::<Bls12381G1Impl>::new(tier, seed), 1), bounded(MExchange::<Bls12381G2Impl>::new(tier, seed), 1)];
+    v.extend(crate::props::mask::models("C18", seed));
+    v
 }
 
 pub fn describe(_tier: Tier, r: &mut Report) {
